@@ -19,3 +19,6 @@ pub mod mem;
 // group C2 (C14; symbol / decoder specs)
 pub mod symforge;
 pub mod sym;
+// group C1 (C01 / C13 / C15)
+pub mod codec;
+pub mod transcript;
